@@ -84,8 +84,8 @@ def observe(fn):
 
 
 # ---- OAuth 2 endpoints ----------------------------------------------------------------------------
-def world2(framework=None):
-    w = H.World(framework=framework)
+def world2(framework=None, supported=None):
+    w = H.World(framework=framework, supported=supported)
     w.store.jwt = dict(w.store.jwt)
     # a live code, token and device code to aim valid-looking requests at
     w.step({"op": "authorize", "client": "c1", "redirect": "https://c1/cb", "scope": "a b", "challenge": H.s256(H.V43), "method": "S256", "user": 1, "approve": True})
@@ -543,6 +543,11 @@ def cases(rng, tier):
             out.append({"t": "oauth2", "ep": name, "form": {x: y for x, y in base.items() if x != k}, "headers": dict(hdr), "via": "form", "mut": "-" + k})
         for a in HOSTILE_AUTH:
             out.append({"t": "oauth2", "ep": name, "form": dict(base), "headers": {"Authorization": a}, "via": "form", "mut": "Authorization"})
+        # a server that declares its supported scopes: every hostile scope value is then an unsupported scope
+        if "scope" in base:
+            for v in HOSTILE:
+                for fw in (None, "flask", "django"):
+                    out.append({"t": "oauth2", "ep": name, "form": dict(base, scope=v), "headers": dict(hdr), "via": "form", "mut": "scope", "supported": ["a", "b"], **({"fw": fw} if fw else {})})
         # the same endpoint behind the Flask and Django integrations (their request wrappers see the hostile values first)
         for fw in ("flask", "django"):
             out.append({"t": "oauth2", "ep": name, "form": dict(base), "headers": dict(hdr), "via": "form", "fw": fw})
@@ -707,7 +712,7 @@ def impl(c):
     if t == "errobj":
         return run_errobj(c)
     if t == "oauth2":
-        return call_oauth2(world2(c.get("fw")), c["ep"], copy.deepcopy(c["form"]), dict(c["headers"]), c.get("via", "form"))
+        return call_oauth2(world2(c.get("fw"), c.get("supported")), c["ep"], copy.deepcopy(c["form"]), dict(c["headers"]), c.get("via", "form"))
     if t == "resource2":
         return call_resource(world2(), c["auth"], c["required"])
     if t == "flask_rp":
